@@ -1,5 +1,4 @@
 use std::fs::File;
-use std::io::BufReader;
 use std::os::unix::fs::FileExt;
 use std::path::{Path, PathBuf};
 
@@ -18,29 +17,35 @@ impl CasManager {
         Self { paths, dir_tree_is_pre_created }
     }
 
-    pub fn read_blob(&self, blob_hash: &BlobHash) -> Result<bytes::Bytes, CasManagerError> {
+    /// Open the blob file of `blob_hash`. The returned file stays readable even if the blob is
+    /// reclaimed (unlinked) afterwards.
+    pub fn open_blob(
+        &self,
+        blob_hash: &BlobHash,
+        operation: CasIoOperation,
+    ) -> Result<(File, PathBuf), CasManagerError> {
         let cas_path = self.paths.cas_file_path(blob_hash);
-        let bytes = std::fs::read(&cas_path).map_err(|e| CasManagerError::FileOperation {
+        match File::open(&cas_path) {
+            Ok(file) => Ok((file, cas_path)),
+            Err(e) => Err(CasManagerError::FileOperation { operation, path: cas_path, source: e }),
+        }
+    }
+
+    pub fn read_blob_from(mut file: File, cas_path: &Path) -> Result<bytes::Bytes, CasManagerError> {
+        use std::io::Read;
+
+        let mut bytes = Vec::with_capacity(file.metadata().map_or(0, |m| m.len() as usize));
+        file.read_to_end(&mut bytes).map_err(|e| CasManagerError::FileOperation {
             operation: CasIoOperation::ReadContent,
-            path: cas_path.clone(),
+            path: cas_path.to_path_buf(),
             source: e,
         })?;
         Ok(bytes::Bytes::from(bytes))
     }
 
-    pub fn blob_bufreader(&self, blob_hash: &BlobHash) -> Result<BufReader<File>, CasManagerError> {
-        let cas_path = self.paths.cas_file_path(blob_hash);
-        let file = File::open(&cas_path).map_err(|e| CasManagerError::FileOperation {
-            operation: CasIoOperation::OpenBuffered,
-            path: cas_path.clone(),
-            source: e,
-        })?;
-        Ok(BufReader::new(file))
-    }
-
-    pub fn read_blob_range(
-        &self,
-        blob_hash: &BlobHash,
+    pub fn read_blob_range_from(
+        file: &File,
+        cas_path: &Path,
         range_start: u64,
         range_end: u64,
     ) -> Result<bytes::Bytes, CasManagerError> {
@@ -50,13 +55,6 @@ impl CasManager {
                 end: range_end,
             });
         }
-
-        let cas_path = self.paths.cas_file_path(blob_hash);
-        let file = File::open(&cas_path).map_err(|e| CasManagerError::FileOperation {
-            operation: CasIoOperation::OpenRangeRead,
-            path: cas_path.clone(),
-            source: e,
-        })?;
 
         let read_len = range_end - range_start;
         if read_len == 0 {
@@ -83,7 +81,7 @@ impl CasManager {
 
                 file.read_at(slice, current_offset).map_err(|e| CasManagerError::FileOperation {
                     operation: CasIoOperation::ReadRange,
-                    path: cas_path.clone(),
+                    path: cas_path.to_path_buf(),
                     source: e,
                 })?
             };
